@@ -1,5 +1,6 @@
 import XmppVerif.Fx
 import XmppVerif.Gen.Fx
+import XmppVerif.Model.Recv
 /-
 Tie (regenerated MODEL, trace semantics): ONE PASS of the receive loops and of the keepalive, on every path.
 
@@ -99,6 +100,78 @@ theorem keepalive_pass_every_run :
     ∀ o, Runs traceSem (body "keepalive") [] o → keepalivePassOk o.trace = true :=
   allIter_sound _ _ keepalive_pass_every_path
 
+-- ---------------------------------------------------------------------------------------------------------------
+-- The hand-written model of one pass (`Model.Recv.clientStep` / `componentStep`) IS the regenerated skeleton's pass,
+-- seen through an abstraction: which kinds of action, in which order, whether the counter moves, whether the loop goes
+-- on. Both directions: every class of input of the model is a path of the code, every path of the code is a class of
+-- input of the model.
+
+/-- the kinds of action the model speaks about -/
+inductive K where
+  | route | answer | errh | disconnected | streamErrorEv | disconnect | streamClose
+  deriving DecidableEq, Repr
+
+/-- a pass, abstractly: the kinds in order, whether the inbound counter was incremented, whether the loop goes on -/
+abbrev Pass := List K × Bool × Bool
+
+def kindOfAct (who : String) : Act → Option K
+  | .spawn w => if w == who ++ ".router.route" then some .route else none
+  | .call w =>
+    if w == "Router.route" then some .route
+    else if w == who ++ ".Send" then some .answer            -- the answer to <r/> is attempted (it may fail)
+    else if w == who ++ ".ErrorHandler" then some .errh
+    else if w == who ++ ".disconnected" || w == who ++ ".updateState(StateDisconnected)" then some .disconnected
+    else if w == who ++ ".streamError" then some .streamErrorEv
+    else if w == who ++ ".Disconnect" then some .disconnect
+    else if w == "Transport.ReceivedStreamClose" then some .streamClose
+    else none
+  | _ => none
+
+def passOfTrace (who : String) (t : List Act) : Pass :=
+  (t.filterMap (kindOfAct who), t.contains (.call ("inc " ++ who ++ ".Session.SMState.Inbound")), ends_ "continue" t)
+
+open XmppVerif.Model.Recv in
+def kindOfModel : Model.Recv.Act → K
+  | .route _ => .route | .answer _ => .answer | .errh => .errh | .disconnected _ _ => .disconnected
+  | .streamErrorEv => .streamErrorEv | .disconnect => .disconnect | .streamClose => .streamClose
+  | .quitClosed => .streamClose   -- never produced by a step (the deferred close is `client_recv_defers_quit`)
+
+/-- the model's pass for one input; a failed answer was still attempted (the model omits writes that fail) -/
+def passOfModel (i : Model.Recv.In) : Pass :=
+  let r := Model.Recv.clientStep ⟨"", 0⟩ i
+  let ks := r.2.1.map kindOfModel
+  ((match i with | .pkt .r true => .answer :: ks | _ => ks), r.1.inbound == 1, r.2.2)
+
+/-- one representative of every class of input the model distinguishes -/
+def inputClasses : List Model.Recv.In :=
+  [.cut, .pkt .serr false, .pkt .r false, .pkt .r true, .pkt .close false, .pkt (.msg "m") false,
+   .pkt (.pres "p") false, .pkt (.iq "i") false, .pkt (.a 3) false, .pkt (.nonza "features") false]
+
+def sameSet (a b : List Pass) : Bool := a.all b.contains && b.all a.contains
+
+/-- **`Model.Recv.clientStep` = one pass of the regenerated `Client.recv`** (as sets of abstract passes): every input
+class of the model is a path of the code with the same kinds of action in the same order, the same verdict on the
+counter and on going on; and the code has no other path. -/
+theorem client_model_is_the_code :
+    ((iterTraces (body "Client.recv")).map fun ts => sameSet (ts.map (passOfTrace "Client")) (inputClasses.map passOfModel)) =
+      some true := by decide +kernel
+
+def passOfComponentModel (i : Model.Recv.In) : Pass :=
+  let r := Model.Recv.componentStep i
+  (r.1.map kindOfModel, false, r.2)
+
+/-- the same for `Component.recv` (state change before the error callback, synchronous routing) -/
+theorem component_model_is_the_code :
+    ((iterTraces (body "Component.recv")).map fun ts =>
+        sameSet (ts.map (passOfTrace "Component")) (inputClasses.map passOfComponentModel)) = some true := by decide +kernel
+
+-- the comparison is not vacuous: a model without its cut case, or one that counted acknowledgement requests, differs
+example : ((iterTraces (body "Client.recv")).map fun ts =>
+    sameSet (ts.map (passOfTrace "Client")) ((inputClasses.drop 1).map passOfModel)) = some false := by decide +kernel
+example : ((iterTraces (body "Client.recv")).map fun ts =>
+    sameSet (ts.map (passOfTrace "Client")) ((inputClasses.map passOfModel).map fun p =>
+      if p.1 == [.answer, .route] then (p.1, true, p.2.2) else p)) = some false := by decide +kernel
+
 -- not vacuous: the predicates refuse a counter incremented on the <r/> arm, a pass that routes twice, a quit arm that closes
 example : clientPassOk [.call "stanza.NextPacket", .call "@case stanza.SMRequest", .call "Client.Send",
     .call "inc Client.Session.SMState.Inbound", .spawn "Client.router.route", .call "continue"] = false := by decide +kernel
@@ -117,3 +190,5 @@ end XmppVerif.Tie.FxRecv
 #print axioms XmppVerif.Tie.FxRecv.component_pass_every_run
 #print axioms XmppVerif.Tie.FxRecv.keepalive_pass_every_path
 #print axioms XmppVerif.Tie.FxRecv.keepalive_pass_every_run
+#print axioms XmppVerif.Tie.FxRecv.client_model_is_the_code
+#print axioms XmppVerif.Tie.FxRecv.component_model_is_the_code
